@@ -285,6 +285,72 @@ def run(pid: str, tier: str, seed: int, selftest=False, replay=None) -> int:
         if case:
             cases.append(case)
         maps.append(reg_map_case(name, acc))
+    # (2b) gemmx with the 8-bit output: D8 = rescale(A x B) and D8 = rescale(A x B + C) (three generics: qmac, add, rescale); the SIMD
+    # registers carry the parameters of the region's kernel.rescale by meaning (csr0 = min | max | zp_out | zp_in, one byte each;
+    # shift_i = four shifts per word, channel 4i in the low byte; mult_c = multiplier of channel c; temporal_loop_bound = M)
+    from math import ceil
+    for k in range(30 if quick else 500):
+        n = rng.choice([8, 8, 4, 16, 5, 12, 3])
+        try:
+            acc = SNAXGEMMXAccelerator(m=rng.choice([8, 4]), n=n, k=rng.choice([8, 4]))
+        except Exception:
+            rep.refused += 1
+            continue
+        c = acc.streamer_config.data
+        mk = markers()
+        pats = rand_patterns(rng, c, mk)
+        a_ub = [rng.choice([2, 3, 4]) for _ in range(rng.choice([2, 3]))]
+        pats[0]["ub"], pats[0]["ts"] = a_ub, [8 * mk.pop() for _ in a_ub]
+        pats[2]["ub"], pats[2]["ts"] = a_ub[:3], ([0] + [8 * mk.pop() for _ in a_ub[1:]])[:3]      # D8: innermost = reduction (stride 0)
+        pats[4] = {"ub": [0, 0, 0], "ts": [0, 0, 0], "ss": [0] * len(c.streamers[4].spatial_dims)}      # D32 unused
+        steps, mval = 1, 1
+        for u in a_ub:
+            steps *= u
+        for u in a_ub[1:3]:
+            mval *= u
+        with_c = rng.random() < 0.6
+        per_channel = rng.random() < 0.5
+        zin, zout = rng.choice([0, 3, -7, 23]), rng.choice([0, -5, 20, -23])
+        # (the machine's integers end at 10^6 - above that values are uninterpreted tokens - so the clamp interval is chosen with a zero
+        # high byte and a small second byte; words that still leave the domain are only required to be present)
+        lo, hi = rng.choice([(0, 14), (0, 7), (0, 12), (0, 3)])
+        shifts = [(rng.choice([1, 4, 7, 9, 12]) if ch % 4 < 2 else rng.choice([0, 3, 9, 14]) if ch % 4 == 2 else 0) for ch in range(n)] if per_channel else [rng.choice([1, 4, 9])]
+        mults = [rng.choice([1, 3, 100, 1234, 77]) for _ in range(n)] if per_channel else [rng.choice([3, 1234])]
+        zpa, zpb = rng.choice([0, 3, -5, 127]), rng.choice([0, -7, 9, 100])
+        fs, fm = (shifts if per_channel else shifts * n), (mults if per_channel else mults * n)
+        csr0 = ((lo % 256) << 24) | ((hi % 256) << 16) | ((zout % 256) << 8) | (zin % 256)
+        sw = [sum(((fs[4 * i + j] if 4 * i + j < n else 0) % 256) << (8 * j) for j in range(4)) for i in range(ceil(n / 4))]
+        sub = ((zpb % 256) << 8) | (zpa % 256)
+        tail = ([{"name": x, "mode": "any", "v": 0} for x in ("K", "N", "M")] + [{"name": "subtractions", "mode": "eq", "v": sub},
+                {"name": "csr0", "mode": "eq", "v": csr0}, {"name": "csr1", "mode": "eq", "v": 0}]
+                + [{"name": f"shift_{i}", "mode": "eq" if sw[i] < 10 ** 6 else "any", "v": sw[i]} for i in range(ceil(n / 4))]
+                + [{"name": f"mult_{i}", "mode": "eq", "v": fm[i]} for i in range(n)]
+                + [{"name": "temporal_loop_bound", "mode": "eq", "v": mval}, {"name": "bypassSIMD", "mode": "eq", "v": 0}])
+        assert csr0 < 10 ** 6
+        add_c = """      %r1 = "dart.generic"(%r, %s2) <{library_call = "snax_gemmx"}> ({
+      ^bb2(%p : i32, %q : i32, %z1 : i32):
+        %v1 = kernel.add %p, %q : i32, i32 -> i32
+        dart.yield %v1 : i32
+      }) : (!dart.stream<i32>, !dart.stream<i32>) -> !dart.stream<i32>
+""" if with_c else ""
+        last = "%r1" if with_c else "%r"
+        body = f"""    ^bb0(%s0 : !dart.stream<i8>, %s1 : !dart.stream<i8>, %s2 : !dart.stream<i32>, %s3 : !dart.stream<i8>):
+      %r = "dart.generic"(%s0, %s1, %za, %zb) <{{library_call = "snax_gemmx"}}> ({{
+      ^bb1(%x : i8, %y : i8, %a : i32, %b : i32, %z : i32):
+        %v = kernel.qmac %x, %y zp_lhs : %a zp_rhs : %b : i8, i8, i32, i32 -> i32
+        dart.yield %v : i32
+      }}) : (!dart.stream<i8>, !dart.stream<i8>, i32, i32) -> !dart.stream<i32>
+{add_c}      %r2 = "dart.generic"({last}) <{{library_call = "snax_gemmx"}}> ({{
+      ^bb3(%w0 : i32, %w1 : i8):
+        %v2 = kernel.rescale %w0 {{input_zp = {zin} : i32, output_zp = {zout} : i32, multiplier = array<i32: {", ".join(str(x) for x in mults)}>, shift = array<i8: {", ".join(str(x) for x in shifts)}>, min_int = {lo} : i32, max_int = {hi} : i32, double_round = false}} : (i32) -> i8
+        dart.yield %v2 : i8
+      }}) : (!dart.stream<i32>) -> !dart.stream<i8>
+      dart.yield %r2 : !dart.stream<i8>"""
+        name = f"gemmx-i8:{seed}:{k}:n{n}:{'gemm' if with_c else 'matmul'}:{'perchannel' if per_channel else 'scalar'}"
+        prelude = f"    %za = arith.constant {zpa} : i32\n    %zb = arith.constant {zpb} : i32"
+        case = build_case(name, acc, pats, [False, False, False, not with_c, True], body, 5, tail, steps, rep, prelude)
+        if case:
+            cases.append(case)
     # (3) snax_hwpe_mult: linalg.generic lowering; fields by meaning: nr_iters = 1 iteration, mode = 1, vector_length = a run-time size
     from xdsl.dialects import linalg, test
     from snaxc.dialects import accfg
